@@ -67,6 +67,13 @@ func keyUses(v ssa.Value) (mapKey, prefixTest bool, where []ssa.Instruction) {
 					mapKey = true
 					where = append(where, x)
 				}
+				// the key of a sync.Map (memo / index kept on a long-lived object)
+				if k := core.CalleeKey(x); strings.HasPrefix(k, "sync.Map.") && k != "sync.Map.Range" {
+					if a := x.Common().Args; len(a) >= 2 && a[1] == v {
+						mapKey = true
+						where = append(where, x)
+					}
+				}
 			}
 		}
 	}
@@ -244,26 +251,8 @@ func c11(w *core.World, r *core.Report) {
 	}
 
 	// ---- PATH-FRESH
-	r.Rule("PATH-FRESH", 1, "sharedEntryAttributes.SdcpbPathInternal builds the path of an entry for the call: the key-level children write their key value into the last element of the path they get from their parent (p.Elem[len-1].Key[name] = ...), so the elements must not be shared between calls. The returned path does not depend on an sdcpb.Path / PathElem kept in a field of the entry (a per-entry cache handed out as a shallow copy makes all instances of a list carry the keys of the one computed last).")
-	if f := w.Func("pkg/tree", "sharedEntryAttributes", "SdcpbPathInternal"); f != nil {
-		bad := ""
-		sl := core.ReturnSlice(f, 0)
-		for v := range sl.Values {
-			u, ok := v.(*ssa.UnOp)
-			if !ok || u.Op != token.MUL {
-				continue
-			}
-			fa, ok := u.X.(*ssa.FieldAddr)
-			if !ok {
-				continue
-			}
-			fk := core.FieldKey(fa)
-			if strings.HasPrefix(fk, "tree.") && strings.Contains(u.Type().String(), "sdcpb.Path") {
-				bad = fk
-			}
-		}
-		r.Check(bad == "", "PATH-FRESH", core.Site(f, "path elements are built per call"), w.Pos(f.Pos()), "the returned path is made of elements kept in "+bad)
-	}
+	r.Rule("PATH-FRESH", 2, "sharedEntryAttributes.SdcpbPath and SdcpbPathInternal build the path of an entry for the call: the key-level children write their key value into the last element of the path they get from their parent (p.Elem[len-1].Key[name] = ...), so the elements must not be shared between calls. The returned path does not depend on an sdcpb.Path / PathElem kept in a field of the entry (a per-entry cache handed out as a shallow copy makes all instances of a list carry the keys of the one computed last).")
+	rulePathFresh(w, r)
 
 	// ---- MAP-ORDER
 	r.Rule("MAP-ORDER", 3, "no order-dependent result is computed from Go map iteration order in the path code (pkg/utils/path.go, pkg/tree, netconf utils, schema client): (a) a slice filled inside a range over a map and later ranged, indexed or returned is sorted in between; (b) no range over a map carries a navigation cursor from one iteration to the next (e = e.Navigate(...)).")
@@ -464,4 +453,31 @@ func ruleSEP(w *core.World, r *core.Report) {
 		}
 	}
 
+}
+
+// rulePathFresh (C11, C08): the path of an entry is built per call, never handed out of a field of the entry.
+func rulePathFresh(w *core.World, r *core.Report) {
+	for _, name := range []string{"SdcpbPathInternal", "SdcpbPath"} {
+		f := w.Func("pkg/tree", "sharedEntryAttributes", name)
+		if f == nil {
+			continue
+		}
+		bad := ""
+		sl := core.ReturnSlice(f, 0)
+		for v := range sl.Values {
+			u, ok := v.(*ssa.UnOp)
+			if !ok || u.Op != token.MUL {
+				continue
+			}
+			fa, ok := u.X.(*ssa.FieldAddr)
+			if !ok {
+				continue
+			}
+			fk := core.FieldKey(fa)
+			if strings.HasPrefix(fk, "tree.") && strings.Contains(u.Type().String(), "sdcpb.Path") {
+				bad = fk
+			}
+		}
+		r.Check(bad == "", "PATH-FRESH", core.Site(f, "path elements are built per call"), w.Pos(f.Pos()), "the returned path is made of elements kept in "+bad)
+	}
 }
